@@ -358,6 +358,15 @@ class Sim(object):
             if pred():
                 return True
             raise HarnessError('blocking call outside sim thread: %s' % what)
+        if what == 'lock' and self.stall_prob and \
+                self.current.group != 'driver' and \
+                self.ch.coin(self.stall_prob):
+            # a thread descheduled right before it takes a lock (between a
+            # check and the critical section which relies on it)
+            self.fault('stall')
+            dt = self.ch.uniform(0.0, self.stall_max, steps=12)
+            self.park(BLOCKED, pred=None, deadline=self.now + dt,
+                      what='stall')
         deadline = None if timeout is None else self.now + max(0.0, timeout)
         # always give others a chance first
         first = True
